@@ -15,9 +15,9 @@ EXPLANATION = (
     "valuations of (vendor given, vendor equal, conformsTo given, stored conformsTo present, conformsTo equal) keeps exactly when "
     "(!vg | ve) & (!cg | (cp & ce)). C19.5: the single-result form over len in {0,1,2} gives {Nonexistent, first, Ambiguous}. C19.6: "
     "add_type = add_assertion('isA', t); types = objects_for_predicate('isA'); has_type = any(digest(x) == digest(envelope(t))); "
-    "check_type Ok iff has_type. Does not decide string/ARID value round-trips.")
+    "check_type Ok iff has_type. C19.9: the Attachments container - add stores new_attachment(..) under its digest, add_to_envelope is the fold of add_assertion_envelope over every stored attachment onto the accumulated envelope, try_from_envelope stores every attachment of the envelope. Does not decide string/ARID value round-trips.")
 TRUSTED = ['String PartialEq compares text']
-FLOORS = {'C19.1': 4, 'C19.2': 1, 'C19.3': 1, 'C19.4': 1, 'C19.5': 1, 'C19.6': 4}
+FLOORS = {'C19.1': 4, 'C19.2': 1, 'C19.3': 1, 'C19.4': 1, 'C19.5': 1, 'C19.6': 4, 'C19.9': 3}
 P1, P2, P3 = ('param', 1), ('param', 2), ('param', 3)
 
 
@@ -308,3 +308,88 @@ def check(ctx):
     # C19.8 error discipline: no error of a fallible call is turned into "absent / false / default" outside the reviewed table
     from .. import errflow
     errflow.check(ctx, 'C19.8', ['src/extension/attachment/attachment_impl.rs', 'src/extension/attachment/attachments.rs', 'src/extension/types.rs'], 'attachment / type family')
+    check_container(ctx)
+
+
+def check_container(ctx):
+    """C19.9: the Attachments container. add stores new_attachment(payload, vendor, conformsTo) under its own digest; add_to_envelope
+    is the fold of add_assertion_envelope over EVERY stored attachment starting from the given envelope (each one added to the
+    envelope that already carries the earlier ones); try_from_envelope stores every attachment of the envelope under its digest."""
+    F = ctx.F
+    P1, P2 = ('param', 1), ('param', 2)
+    def method(name):
+        bs = [b for b in F.bodies if b.path.endswith('::Attachments::' + name)]
+        return bs[0] if len(bs) == 1 else None
+    def store_of(x, root):
+        x = strip_sites(x)
+        return x[0] == 'vfield' and x[3] == 'envelopes' and (root is None or strip_sites(x[1]) == root)
+    # ---- add
+    b = method('add')
+    if b is None:
+        ctx.lost('C19.9', 'Attachments::add')
+    else:
+        tb = TermBuilder(F, b)
+        ins = [(bi, [strip_sites(a) for a in tb.call_args(bi)]) for bi, c, t in b.calls() if c is not None and c.name == 'insert']
+        good = [x for x in ins if len(x[1]) == 3 and store_of(x[1][0], P1) and m_call(x[1][2], name='new_attachment') is not None
+                and m_digest(x[1][1]) is not None and strip_sites(m_digest(x[1][1])) == x[1][2]
+                and tuple(strip_sites(y) for y in m_call(x[1][2], name='new_attachment')[:2]) == (P2, ('param', 3))]
+        if len(ins) == 1 and good:
+            ctx.ok('C19.9', ctx.site(b, ins[0][0]), 'add stores new_attachment(payload, vendor, ..) under its own digest', sample=fmt(ins[0][1][2]))
+        else:
+            ctx.fail('C19.9', ctx.site(b), 'Attachments::add does not store exactly new_attachment(payload, vendor, conformsTo) keyed by its digest: %s' % [[fmt(y) for y in x[1]] for x in ins],
+                     key='C19.9|add')
+    # ---- add_to_envelope
+    b = method('add_to_envelope')
+    if b is None:
+        ctx.lost('C19.9', 'Attachments::add_to_envelope')
+    else:
+        tb = TermBuilder(F, b)
+        ff = fold_form(F, b, tb)
+        if ff is None:
+            ctx.fail('C19.9', ctx.site(b), 'add_to_envelope is not a fold over the stored attachments: %s' % fmt(strip_sites(tb.return_term()))[:300], key='C19.9|fold_form', rule='FLOW/IDIOM-UNKNOWN')
+        else:
+            init, step, accm = ff
+            st = strip_sites(detry(step))
+            u = m_call(st, name='unwrap') or m_call(st, name='expect')
+            if u is not None:
+                st = strip_sites(detry(u[0]))
+            a = m_call(st, name='add_assertion_envelope', self_suffix='Envelope')
+            def stored_value(x):
+                x = strip_sites(x)
+                while x[0] == 'call' and call_name(x) in ('clone', 'deref', 'borrow', 'as_ref') and len(x[2]) == 1:
+                    x = strip_sites(x[2][0])
+                if x[0] == 'vfield' and x[3] == '1' and x[1][0] == 'elem':
+                    src = strip_sites(x[1][1])
+                    return src[0] == 'call' and call_name(src) in ('iter', 'into_iter') and store_of(src[2][0], P1)
+                if x[0] == 'elem':
+                    src = strip_sites(x[1])
+                    return src[0] == 'call' and call_name(src) in ('values', 'into_values') and store_of(src[2][0], P1)
+                return False
+            init_ok = strip_sites(init) == P2 or (m_call(init, name='clone') is not None and strip_sites(m_call(init, name='clone')[0]) == P2)
+            if a is not None and strip_sites(a[0]) == accm and stored_value(a[1]) and init_ok:
+                ctx.ok('C19.9', ctx.site(b), 'add_to_envelope = fold(stored attachments, envelope, |acc, a| add_assertion_envelope(acc, a)): every stored attachment is added, cumulatively',
+                       sample=fmt(step))
+            else:
+                ctx.fail('C19.9', ctx.site(b), 'add_to_envelope does not add every stored attachment to the accumulated envelope (start %s, step %s)' % (fmt(init), fmt(step)[:300]),
+                         key='C19.9|fold')
+    # ---- try_from_envelope
+    b = method('try_from_envelope')
+    if b is None:
+        ctx.lost('C19.9', 'Attachments::try_from_envelope')
+    else:
+        tb = TermBuilder(F, b)
+        ins = [(bi, [strip_sites(detry(a)) for a in tb.call_args(bi)]) for bi, c, t in b.calls() if c is not None and c.name == 'insert']
+        def att_elem(x):
+            x = strip_sites(detry(x))
+            if x[0] != 'elem':
+                return False
+            src = strip_sites(detry(x[1]))
+            a_ = m_call(src, name='attachments', self_suffix='Envelope')
+            return a_ is not None and strip_sites(a_[0]) == P1
+        good = [x for x in ins if len(x[1]) == 3 and att_elem(x[1][2]) and m_digest(x[1][1]) is not None and strip_sites(detry(m_digest(x[1][1]))) == x[1][2]]
+        # the insert must be unconditional per element: the only switch between loop header and insert is the iterator's own
+        if len(ins) == 1 and good:
+            ctx.ok('C19.9', ctx.site(b, ins[0][0]), 'try_from_envelope stores each attachment of the envelope under its own digest', sample=fmt(ins[0][1][2]))
+        else:
+            ctx.fail('C19.9', ctx.site(b), 'try_from_envelope does not store every attachment of the envelope keyed by its digest: %s' % [[fmt(y)[:120] for y in x[1]] for x in ins],
+                     key='C19.9|try_from', rule='FLOW/IDIOM-UNKNOWN')
